@@ -478,8 +478,9 @@ class VirtualFileSystem(FileSystem[str]):
             # normpath() turns the root folder into '.', which no filename starts with.
             folder = ''
 
-        for filename, data in self._mapping.values():
-            if filename.startswith(folder):
+        # The keys are cleaned the same way as the folder, the original filenames may use any case.
+        for cleaned, (filename, data) in self._mapping.items():
+            if cleaned.startswith(folder):
                 yield File(self, filename, filename)
 
     def _file_exists(self, name: str) -> bool:
